@@ -307,6 +307,10 @@ BOUNDARIES = [
     ("emb_dims_equal, emb_dims_differ", "embedding columns of equal / pairwise different dimensions"),
     ("cat_all_missing, cat_missing_first_cell, cat_missing_last_cell", "-1 everywhere / only in the first / last cell"),
     ("cat_minus2_and_zero", "category codes -2 and 0 next to -1 (only -1 is missing)"),
+    ("cat_code_beyond_2^24_{with_minus1, next_to_float32, next_to_float64, next_to_embedding}",
+     "codes 2^24+1, 2^24+3, 2^30+65: correspondence only -- the float32 model must reproduce the rounding the code does"),
+    ("cat_code_2^24_{with_minus1, next_to_float32, next_to_float64, alone}",
+     "codes 2^24 - 1, 2^24, -2^24: the largest that survive the float32 casts of the XGBoost adapter exactly"),
     ("num_minus1, num_nan_first_cell, num_nan_last_cell, num_all_nan", "a numerical -1; NaN first / last / everywhere"),
     ("num_f32_extremes, emb_f32_extremes, num_f64_not_f32, y_extremes",
      "float32 max / -max / smallest subnormal / -0.0 / 1+2^-23; float64 values that float32 cannot hold next to a "
@@ -366,6 +370,20 @@ def gen_boundary_cases(rng):
     f = A("cat_all_missing", _bframe(3, 2, 1, [1], rng)); f["cat"]["rows"] = [[-1, -1]] * 3
     f = A("cat_missing_first_cell", _bframe(3, 2, 1, [1], rng)); f["cat"]["rows"][0][0] = -1
     f = A("cat_missing_last_cell", _bframe(3, 2, 1, [1], rng)); f["cat"]["rows"][-1][-1] = -1
+    B24 = 2 ** 24
+    f = A("cat_code_2^24_with_minus1", _bframe(3, 2, 0, [], rng)); f["cat"]["rows"] = [[B24, -1], [B24 - 1, -B24], [0, 1]]
+    f = A("cat_code_2^24_next_to_float32", _bframe(2, 1, 1, [1], rng)); f["cat"]["rows"] = [[B24], [B24 - 1]]
+    f = A("cat_code_2^24_next_to_float64", _bframe(2, 1, 1, [], rng)); f["cat"]["rows"] = [[B24], [-1]]
+    f["form"]["num_dtype"] = "float64"
+    f = A("cat_code_2^24_alone", _bframe(2, 1, 0, [], rng)); f["cat"]["rows"] = [[B24], [B24 - 1]]
+    # beyond the bound: NOT judged by the oracle (outside the quantifier: a code is a rank below the number of
+    # categories); the float32 model of Props/C20.v 5b must predict what the code really emits
+    for nm, wn, dims, f64 in (("with_minus1", 0, [], False), ("next_to_float32", 1, [], False),
+                              ("next_to_float64", 1, [], True), ("next_to_embedding", 0, [1], False)):
+        f = A("cat_code_beyond_2^24_" + nm, _bframe(2, 2, wn, dims, rng))
+        f["cat"]["rows"] = [[B24 + 1, -1 if nm != "next_to_float32" and nm != "next_to_embedding" else 5], [B24 + 3, 2 ** 30 + 65]]
+        f["form"]["num_dtype"] = "float64" if f64 else "float32"
+        f["model_only_f32"] = True
     f = A("cat_minus2_and_zero", _bframe(3, 1, 1, [], rng)); f["cat"]["rows"] = [[-2], [0], [-1]]
     f = A("num_minus1", _bframe(2, 1, 2, [], rng)); f["num"]["rows"][0][0] = [-1, 1]
     f = A("num_nan_first_cell", _bframe(2, 1, 2, [1], rng)); f["num"]["rows"][0][0] = None
@@ -848,6 +866,8 @@ def _obs_rows(rows):
 
 
 def oracle_adapter(case, obs):
+    if case.get("model_only_f32"):
+        return None
     if obs.get("emb_cells_readback") is False:
         return dict(key="harness-emb-readback", what="embedding cells read back differ from the cells written")
     for lib in ("xgb", "cat", "lgbm"):
@@ -1312,8 +1332,9 @@ def coq_oy(y):
     return "None" if y is None else "(Some " + C.clist(y, cval) + ")"
 
 
-def coq_lib_term(lib, o):
+def coq_lib_term(lib, o, frame=None):
     """model of one adapter on `tf` (bound by the caller) against one observed call"""
+    f64 = C.cbool(bool(frame) and (frame.get("form") or {}).get("num_dtype") == "float64")
     if lib == "xgb":
         if o["ok"]:
             if o["feat"]["rows"] is None or any(t not in ("c", "q") for t in o["types"]):
@@ -1322,7 +1343,10 @@ def coq_lib_term(lib, o):
             ox = f"(Some ({coq_block(o['feat']['rows'])}, {coq_oy(o['y'])}, {types}))"
         else:
             ox = "None"
-        return f"xgb_eqb (to_xgboost_input tf) {ox}"
+        # both the value-level model and the model with the float32 casts as written (Props/C20.v 5b)
+        if frame and frame.get("model_only_f32"):
+            return f"xgb_eqb (to_xgboost_input_f32 {f64} tf) {ox}"
+        return f"(xgb_eqb (to_xgboost_input tf) {ox} && xgb_eqb (to_xgboost_input_f32 {f64} tf) {ox})"
     fn = "to_catboost_input" if lib == "cat" else "to_lightgbm_input"
     if o["ok"]:
         if any(c < 0 for c in o["columns"] + o["cat_features"]):
@@ -1343,10 +1367,10 @@ def coq_term(case, obs):
     if kind == "history" and any(_has_inf(f) for f in case["frames"]):
         return None
     if kind == "adapter":
-        return coq_with_tf(case, " && ".join(coq_lib_term(lib, obs[lib]) for lib in LIBS))
+        return coq_with_tf(case, " && ".join(coq_lib_term(lib, obs[lib], case) for lib in LIBS))
     if kind == "history":
         # every call of the history against the (stateless) model of its adapter on its own frame
-        terms = [coq_with_tf(case["frames"][st["frame"]], coq_lib_term(st["lib"], o))
+        terms = [coq_with_tf(case["frames"][st["frame"]], coq_lib_term(st["lib"], o, case["frames"][st["frame"]]))
                  for st, o in zip(case["steps"], obs["steps"])]
         terms.append(C.cbool(all(obs["unchanged_later"])))
         return "(" + " && ".join(terms) + ")"
